@@ -19,7 +19,7 @@ impl Prop for C13T {
         "C13"
     }
     fn budget(&self, thorough: bool) -> u64 {
-        if thorough { 15_000_000 } else { 600_000 }
+        if thorough { 15_000_000 } else { 2_000_000 }
     }
     fn generate(&self, seed: u64, thorough: bool) -> Scenario {
         // the workloads of the other checks
